@@ -124,12 +124,14 @@ pub fn worker<W: World>(
     };
     let progress_path = out.with_extension("progress");
     let mut trace_hash: u64 = 0;
+    let mut sweep_cases: std::collections::BTreeMap<u64, W::Case> =
+        if sweep { W::sweep_some(&(from..to).collect::<Vec<u64>>()).into_iter().collect() } else { Default::default() };
     for run in from..to {
         if careful {
             let _ = std::fs::write(&progress_path, run.to_string());
         }
         let case = if sweep {
-            match W::sweep_case(run) {
+            match sweep_cases.remove(&run) {
                 Some(c) => c,
                 None => continue,
             }
@@ -204,13 +206,15 @@ pub fn miri_batch<W: World>(prop: &str, seed: u64, from: u64, to: u64, sweep: bo
     let mut ctx = Ctx::new(prop, Tier::Quick);
     let trace = std::env::args().any(|a| a == "--trace");
     let mut th = 0u64;
+    let wanted: Vec<u64> = (from..to).filter(|r| stride <= 1 || r % stride == offset % stride).collect();
+    let mut sweep_cases: std::collections::BTreeMap<u64, W::Case> = if sweep { W::sweep_some(&wanted).into_iter().collect() } else { Default::default() };
     for run in from..to {
         if stride > 1 && run % stride != offset % stride {
             continue;
         }
         println!("RUN {run}");
         let case = if sweep {
-            match W::sweep_case(run) {
+            match sweep_cases.remove(&run) {
                 Some(c) => c,
                 None => continue,
             }
@@ -920,6 +924,7 @@ pub fn cmd_check(prop: &str, tier: Tier) -> i32 {
     let mut samples: Vec<Value> = Vec::new();
     let mut per_world: Vec<Value> = Vec::new();
     let mut fault_sweep: Value = json!(null);
+    let mut sweeps: Vec<Value> = Vec::new();
     for r in &results {
         for (k, v) in &r.probes {
             *probes.entry(k.clone()).or_insert(0) += v;
@@ -938,11 +943,18 @@ pub fn cmd_check(prop: &str, tier: Tier) -> i32 {
         }
         if r.sweep {
             let names: Vec<String> = with_world!(r.world.as_str(), W => <W as World>::sweep_names());
-            fault_sweep = json!({
-                "world": r.world, "cells": names.len(), "cells_executed": r.runs, "violating_cells": r.violating_runs,
-                "exhaustive": r.runs == names.len() as u64,
-                "cell_names": names,
+            let total = names.len();
+            let shown: Vec<String> = if r.world == "byvalue" { names } else { names.into_iter().take(24).collect() };
+            let entry = json!({
+                "world": r.world, "cells": total, "cells_executed": r.runs, "violating_cells": r.violating_runs,
+                "exhaustive": r.runs == total as u64,
+                "cell_names": shown,
+                "cell_names_truncated": r.world != "byvalue" && total > 24,
             });
+            if r.world == "byvalue" {
+                fault_sweep = entry.clone();
+            }
+            sweeps.push(entry);
         }
         per_world.push(json!({
             "world": r.world, "fault_sweep_stage": r.sweep, "runs": r.runs, "steps": r.steps, "failing_operations": r.fail_ops,
@@ -985,6 +997,7 @@ pub fn cmd_check(prop: &str, tier: Tier) -> i32 {
             "measured_sets": set_sizes,
             "per_world": per_world,
             "fault_sweep": fault_sweep,
+            "sweeps": sweeps,
             "profiles": profiles,
             "runs_per_hour": if wall > 0.0 { (runs as f64 / wall * 3600.0) as u64 } else { 0 },
             "simulated_time": "not applicable: konst has no clock; logical steps are reported instead",
